@@ -187,6 +187,9 @@ RunResult run(J const &plan) {
       else if (amplified && t.step > first_resume_step + 5) {   // (counted from the FIRST resume: a later one starts from a run that has legitimately drifted already)
         // (with a ratchet or walls the amplification has no bound at all — 12% after 85 steps was observed: not compared)
         if (config.find("abmd {") != std::string::npos || config.find("harmonicWalls {") != std::string::npos) continue;
+        // (a history-dependent bias on a fictitious coordinate feeds the drift back: new hills, samples and kernels land elsewhere - 6% in
+        //  the energy 39 steps after a resume was observed with metadynamics: not compared either)
+        if (config.find("metadynamics {") != std::string::npos || config.find("abf {") != std::string::npos || config.find("opes_metad {") != std::string::npos || config.find("alb {") != std::string::npos) continue;
         tt.rtol = 1e-2; tt.atol = 1e-3;
       }
       std::string where = resumed ? "after_resume" : "before_stop";
@@ -268,7 +271,8 @@ RunResult run(J const &plan) {
   }
   if (!res.violation && resumed && !ref_degenerate) {
     std::string fin = e->save_state_string();
-    bool const nonsmooth = amplified && (config.find("abmd {") != std::string::npos || config.find("harmonicWalls {") != std::string::npos);
+    bool const nonsmooth = amplified && (config.find("abmd {") != std::string::npos || config.find("harmonicWalls {") != std::string::npos || config.find("metadynamics {") != std::string::npos ||
+                                         config.find("abf {") != std::string::npos || config.find("opes_metad {") != std::string::npos || config.find("alb {") != std::string::npos);
     StateDiff d = compare_state_text(ref_state, fin, amplified ? 1e-2 : 2e-9, amplified ? 1e-3 : 1e-9);
     if (nonsmooth) d.same = true;
     if (!d.same) res.fail("final_state", "differs/" + d.context, "token " + std::to_string(d.index) + " ref '" + d.a + "' test '" + d.b + "'");
@@ -303,6 +307,7 @@ Property make() {
            "fresh instance loading the state from the simulated disk; non-trivial = at least one resume executed; distinct = hash of (scenario "
            "template, stop/resume kind sequence, state format, force convention)";
   p.rule += " Later additions: 40% of the variables whose total force is read have subtractAppliedForce; scenarios with a fictitious coordinate are compared at 1e-6 for five steps after the first resume only.";
+  p.rule += " Fifth round: scenarios with a history-dependent bias on a fictitious coordinate are compared for five steps after the first resume only.";
   p.assumptions = {"engine-side checkpoint is perfect (kinematic positions are a pure function of the step)",
                    "comparison tolerance rtol 2e-9 after a text state (14 significant digits); bitwise before the first stop",
                    "quantities at the repeated step itself are not compared"};
